@@ -141,7 +141,10 @@ def oracle_c03(case):
             for k, v in counters.items():
                 d = v - counters_prev.get(k, 0) if isinstance(v, int) and isinstance(counters_prev.get(k, 0), int) else 0
                 if d not in (0, 1):
-                    out.append(fail(i, f"passage counter {k} moved by {d} in one navigation"))
+                    # C08-F3: a cycle that runs through a TOP-LEVEL jump restarts the loop detection (each recursive goto has
+                    # its own visited set), so its passages are entered again instead of the cycle being reported
+                    has_top = any(t.get("type") == "jump" for p_ in case.get("story", {}).get("passages", {}).values() for t in p_.get("content", []))
+                    out.append(fail(i, f"passage counter {k} moved by {d} in one navigation", "C08-mixed-cycle" if has_top else None))
             if "out" in resp:
                 pid = resp["out"]["pid"]
                 k = "n_" + pid
